@@ -23,3 +23,4 @@ open XotModel.Props
 #print axioms C15_reparses_deep_equal
 #print axioms C15_roundtrip
 #print axioms C15_roundtrip_text
+#print axioms C15_reachable_dedup
